@@ -68,6 +68,41 @@ def run_impl(dump, ts, leaf_only):
     return ('ok', ct.dump_circuit(out)), ct.dump_circuit(c) == before
 
 
+def unary_chain_circuit(rng, kind):
+    """a circuit whose unary gates are all NOT (kind='NOT') or all IFF (kind='IFF'), with chains of
+    2-9 consecutive unary gates whose members are also operands of other gates and outputs"""
+    used, order, avail = set(), [], []
+    for _ in range(rng.randint(1, 3)):
+        l = gen.fresh_label(rng, used)
+        used.add(l)
+        order.append((l, 'INPUT', []))
+        avail.append(l)
+    taps = []
+    for _ in range(rng.randint(1, 3)):
+        base = rng.choice(avail)
+        cur = base
+        for _ in range(rng.randint(2, 9)):
+            l = gen.fresh_label(rng, used)
+            used.add(l)
+            order.append((l, kind, [cur]))
+            cur = l
+            avail.append(l)
+            taps.append(l)
+        for _ in range(rng.randint(0, 2)):
+            l = gen.fresh_label(rng, used)
+            used.add(l)
+            t = rng.choice(['AND', 'OR', 'XOR', 'NAND'])
+            order.append((l, t, [rng.choice(avail), rng.choice(taps)]))
+            avail.append(l)
+    users = {}
+    for l, t, ops in order:
+        for o in ops:
+            users.setdefault(o, []).append(l)
+    outs = [rng.choice(taps) for _ in range(rng.randint(1, 3))] + [rng.choice(avail)]
+    return {'inputs': [l for l, t, _ in order if t == 'INPUT'], 'outputs': outs, 'gates': order,
+            'users': list(users.items()), 'blocks': []}
+
+
 LEAVES = [['RR', False], ['RR', True], ['MU'], ['MD'], ['ME']]
 
 
